@@ -22,6 +22,7 @@ Descriptors (all JSON):
 from __future__ import annotations
 
 import fcntl
+import gc
 import html as _html
 import os
 import pty
@@ -56,6 +57,9 @@ REQUIRE = {
     "enc_nonutf8_frames": 100,
     "partial_mode_frames": 20,
     "frames_same_object": 10,
+    "frames_drawn_after_previous_canvas_released": 300,
+    "ctrl_byte_cells_compared_as_?": 100,
+    "rows_ctrl_byte_before_trailing_blanks": 20,
     "reach:display._raw_display_base.Screen._last_row": 100,
     "reach:display._raw_display_base.Screen._attrspec_to_escape": 500,
     "reach:display.html_fragment.html_span": 500,
@@ -73,7 +77,11 @@ RULE = (
     "previous frame, or renders of small real widget trees (Text/Edit/Divider/Pile/Columns/LineBox/AttrMap/Padding in a Filler); "
     "sizes 1x1..40x12; a frame whose size differs from the current one is preceded by the resize protocol (TIOCSWINSZ, "
     "_sigwinch_handler, 'window resize' key, get_cols_rows). Every frame of a history is also given to HtmlGenerator (first and "
-    "last two). Plus 40 fixed directed histories. Distinct = hash of the whole case descriptor; non-trivial = at least one "
+    "last two). In byte encodings rows also hold control bytes (one column each, expected glyph '?'), in particular directly "
+    "before trailing blanks, and widget texts hold tabs. A fifth of the histories and dedicated 40-200 frame histories follow "
+    "the MainLoop discipline: every reference to a canvas is dropped (del + gc) right after draw_screen and only then the next "
+    "canvas is built, taking the one that lands on the released address if one of 8 same-type allocations does. "
+    "Plus 40 fixed directed histories. Distinct = hash of the whole case descriptor; non-trivial = at least one "
     "frame was drawn and compared."
 )
 ASSUMES = [
@@ -97,7 +105,12 @@ ASSUMES = [
     "of history that must stay intact; canvas rows that have no terminal row are blank; blank rows whose attribute paints like the "
     "default entry may be left unpainted (documented intent), other rows are judged like in full-screen mode; no GARBAGE, no resizes.",
     "TERM=xterm is set while the Screen is constructed (term-specific branches 'fbterm'/'linux' are outside the quantifier).",
-    "HTML: rows containing C0 controls or IBM-PC charset runs are not judged (how such bytes are visualised is not specified); the "
+    "In a byte (narrow) encoding a control byte is one column for calc_width/TextCanvas and draw_screen documents its translation to "
+    "'?': such cells are judged like any other (expected glyph '?'); SO/SI are not generated (apply_target_encoding reads them as shifts), "
+    "DEL is not generated.",
+    "Release discipline: on the unchanged tree the screen itself keeps the last canvas alive, so the counter canvas_address_reused is 0 "
+    "there by construction (non-zero means the screen no longer holds the canvas); it is recorded, not required.",
+    "HTML: rows containing zero-width C0 controls (utf-8) or IBM-PC charset runs are not judged (how such bytes are visualised is not specified); the "
     "highlighted cursor span must start with the base character of exactly the canvas cursor cell (a combining mark may stay outside).",
 ]
 
@@ -364,9 +377,13 @@ class Expect:
         self.items = items
         self.cells = []  # [y][x] = (ch, Style, widepart, attr)
         self.has_c0 = False
+        self.ctrl_xy = set()
+        self.ctrl_cells = 0  # cells holding a control byte that counts one column (byte encodings): must show '?'
+        self.ctrl_before_blank_tail = 0  # rows whose last non-blank cell is such a control byte, followed by blanks
         style_cache = {}
         for irow in items:
             row = []
+            last_ctrl = None
             for b, w, a, cs in irow:
                 if w == 0 and len(b) == 1 and (b[0] < 0x20 or b[0] == 0x7F):
                     # a C0 control inside canvas text occupies no column in the canvas: nothing is expected on the glass
@@ -389,8 +406,14 @@ class Expect:
                     row.append(("", st, 2, a))
                 else:
                     row.append((ch, st, 0, a))
+                    if cs != "U" and len(b) == 1 and b[0] < 0x20:
+                        self.ctrl_cells += 1
+                        last_ctrl = len(row) - 1
+                        self.ctrl_xy.add((len(row) - 1, len(self.cells)))
             if len(row) != cols:
                 raise Invalid(f"canvas row is {len(row)} columns wide, size says {cols}")
+            if last_ctrl is not None and last_ctrl < cols - 1 and all(c[0] == " " for c in row[last_ctrl + 1 :]):
+                self.ctrl_before_blank_tail += 1
             self.cells.append(row)
         self.cursor = canvas.cursor
 
@@ -461,6 +484,8 @@ def row_shape(exp: Expect, y, cfg):
     if zs == 0:
         return f"tail={ztag}-sole"
     ys, yw = unit(zs - 1)
+    if (ys, y) in exp.ctrl_xy:
+        return f"tail=Y1ctl-{ztag}"
     return f"tail=Y{yw}-{ztag}" + (",charsets-differ" if _cs_tag(exp, y, ys) != _cs_tag(exp, y, zs) else "")
 
 
@@ -510,6 +535,9 @@ class Session:
         self.scroll_seen = 0
         self.font_before = False
         self.cy_stale = False
+        self.release = bool(cfg.get("release"))
+        self.prev_canvas_id = None
+        self.early_return_new_canvas = None
         self.alt = cfg.get("alt", True)
         self.base = 0 if self.alt else cfg.get("base", 0)
         self.started = False
@@ -603,10 +631,34 @@ class Session:
         if canvas is None:
             try:
                 canvas = build_frame(frame)
+                if self.release and self.prev_canvas_id is not None and id(canvas) != self.prev_canvas_id:
+                    # MainLoop discipline: every reference to the previous canvas was dropped before this one is built.
+                    # CPython hands the freed address out again within a few same-type allocations: take that canvas
+                    # if it shows up (an ordinary caller can end up with it just as well).
+                    spare = [canvas]
+                    for _ in range(7):
+                        c = build_frame(frame)
+                        spare.append(c)
+                        if id(c) == self.prev_canvas_id:
+                            canvas = c
+                            break
+                    del spare, c
             except Exception as e:  # noqa: BLE001  -- widget trees that urwid refuses are not C04's subject
                 self.count("frames_skipped_render_error")
                 self.count(f"render_error:{type(e).__name__}")
                 return False
+        if not self.release:
+            return self._draw(frame, canvas, size, tag)
+        try:
+            return self._draw(frame, canvas, size, tag)
+        finally:
+            # the screen is the only one allowed to keep the canvas (MainLoop.draw_screen keeps none)
+            self.prev_canvas_id = id(canvas)
+            self.last_canvas = None
+            del canvas
+            gc.collect(1)
+
+    def _draw(self, frame, canvas, size, tag):
         try:
             exp = Expect(canvas, size, self.enc, self.pal, self.colors, self.bib)
         except Invalid:
@@ -623,6 +675,12 @@ class Session:
         before = self.rec.total
         self.note_cy()
         old_exp = self.exp
+        reused = False
+        if self.release and self.prev_canvas_id is not None and tag != "same_object":
+            self.count("frames_drawn_after_previous_canvas_released")
+            reused = id(canvas) == self.prev_canvas_id
+            if reused:
+                self.count("canvas_address_reused")
         try:
             self.scr.draw_screen(size, canvas)
         except Exception as e:  # noqa: BLE001
@@ -643,11 +701,17 @@ class Session:
             self.count("widget_frames")
         if self.rec.total == before:
             self.count("draws_without_output")
+        self.early_return_new_canvas = None
+        if self.rec.total == before and tag != "same_object":
+            self.early_return_new_canvas = "address-of-the-released-previous-canvas-reused" if reused else "other"
         self.observe_paths(exp, old_exp, data)
         self.pending_full = False
         self.compare(exp, "draw")
         if exp.has_c0:
             self.count("frames_with_c0_control")
+        if exp.ctrl_cells:
+            self.count("ctrl_byte_cells_compared_as_?", exp.ctrl_cells)
+            self.count("rows_ctrl_byte_before_trailing_blanks", exp.ctrl_before_blank_tail)
         return True
 
     def observe_paths(self, exp, old_exp, data):
@@ -672,6 +736,14 @@ class Session:
         except Found as f:
             if exp.has_c0:
                 raise Found("C04|raw|c0-control-in-canvas-text|painted-as-?-in-a-column-the-canvas-does-not-have", f.msg) from f
+            if phase == "draw" and self.early_return_new_canvas:
+                raise Found(
+                    "C04|raw|draw_screen-wrote-nothing-for-a-canvas-object-it-had-not-drawn|" + self.early_return_new_canvas,
+                    "draw_screen returned without output although the canvas is a different object from the one drawn before\n" + f.msg,
+                ) from f
+            last = row_shape(exp, exp.rows - 1, self.cfg)
+            if "Y1ctl" in last and ("last-row" in f.sig or "|scrolled|" in f.sig):
+                raise Found("C04|raw|last-row|control-byte-slid-into-place-untranslated|" + last, f.msg) from f
             if self.cy_stale:
                 raise Found("C04|raw|partial-screen|frame-painted-at-wrong-rows|cursor-row-bookkeeping-stale-after-frame-without-cursor", f.msg) from f
             if self.font_before and "|glyph|" in f.sig and f.cell:
@@ -708,6 +780,23 @@ class Session:
                     raise Found(
                         f"C04|raw|{phase}|cell-never-painted|{self.where(exp, x, y)}",
                         f"cell ({x},{y}) was not painted by a repaint that had to be complete\n{self.describe(exp)}",
+                    )
+                if (x, y) in exp.ctrl_xy and c.wide == 0 and c.ch != "?" and all(
+                    v.ch == w[0] for v, w in zip(vrow[:x], erow[:x])
+                ):
+                    where = "before-trailing-blanks" if all(w[0] == " " for w in erow[x + 1 :]) and x < exp.cols - 1 else "inside-text"
+                    if not self.alt and all(v.ch == " " and v.erased for v in vrow) and all(
+                        w[0] == " " or (i, y) in exp.ctrl_xy for i, w in enumerate(erow)
+                    ):
+                        raise Found(
+                            "C04|raw|partial-screen|row-of-control-whitespace-bytes-taken-for-blank-and-left-unpainted",
+                            f"row {y} holds control byte(s) (one column each, shown as '?') and blanks only; the terminal row was never painted\n{self.describe(exp)}",
+                            cell=(x, y),
+                        )
+                    raise Found(
+                        f"C04|raw|glyph|one-column-control-byte-not-shown-as-?|{where}|{'last-row' if y == exp.rows - 1 else 'row'}",
+                        f"cell ({x},{y}) holds a control byte (one column in this encoding): terminal shows {c.ch!r}, expected '?'\n{self.describe(exp)}",
+                        cell=(x, y),
                     )
                 if c.wide != e[2] or (c.wide != 2 and c.ch != e[0]):
                     raise Found(
@@ -871,7 +960,7 @@ def run_raw(ctx, case, count=True):
             elif k == "winch":
                 if sess.alt:
                     sess.op_winch()
-            elif k == "again" and frame_size(sess.last_frame) == sess.size:
+            elif k == "again" and frame_size(sess.last_frame) == sess.size and sess.last_canvas is not None:
                 # the very same canvas object (what MainLoop passes when the canvas cache hits): draw_screen may return
                 # early, but not after clear() / a resize
                 step(sess.draw, sess.last_frame, canvas=sess.last_canvas, tag="same_object")
@@ -951,7 +1040,9 @@ def run_html(ctx, cfg, palette, frame, count=True):
                 if got != want:
                     return None
                 continue
-            if exp_has_c0_row(exp, y):
+            if exp_has_c0_row(exp, y) and enc_mode(enc) != "utf8":
+                cnt("html_rows_with_c0_control_judged")
+            if exp_has_c0_row(exp, y) and enc_mode(enc) == "utf8":
                 cnt("html_rows_not_judged_c0_control")
                 if got != want:
                     return None
@@ -1152,7 +1243,11 @@ def gen_chars(rng, w, enc, allow_c0=False):
     return out
 
 
-TAILS = ("random", "wide-last2", "wide-then-narrow", "narrow-then-wide", "wide-wide", "dec-ascii", "ascii-dec", "dec-dec", "blank-tail", "full", "blank", "comb-tail", "one-char-segs")
+# C0 controls that a byte (narrow) encoding counts as ONE column each and that draw_screen must show as '?'
+# (SO / SI are excluded: apply_target_encoding treats them as charset shifts)
+CTRL_NARROW = "\t\r\x0b\x0c\x00\x01\x1b\x08\x07\x1f\n"
+
+TAILS = ("ctrl-blank-tail", "random", "wide-last2", "wide-then-narrow", "narrow-then-wide", "wide-wide", "dec-ascii", "ascii-dec", "dec-dec", "blank-tail", "full", "blank", "comb-tail", "one-char-segs")
 
 
 def unit_w(u, enc):
@@ -1181,8 +1276,16 @@ def gen_row(rng, w, enc, pool: AttrPool, tail=None, c0=False, ibm=False):
     while want and sum(unit_w(u, enc) for u in want) > w:
         want.pop(0)
     tw = sum(unit_w(u, enc) for u in want)
+    ctrl_at = None
+    if tail == "ctrl-blank-tail" and (utf or w < 2):
+        tail = "blank-tail"
     if tail == "blank":
         units = [" "] * w
+    elif tail == "ctrl-blank-tail":
+        # a control byte (one column in a byte encoding, shown as '?') directly before the trailing blanks
+        k = rng.randint(1, max(1, min(w - 1, 4)))
+        units = [*gen_chars(rng, w - k - 1, enc), rng.choice(CTRL_NARROW), *([" "] * k)]
+        ctrl_at = w - k - 1
     elif tail == "blank-tail":
         k = rng.randint(1, max(1, min(w, 4)))
         units = [*gen_chars(rng, w - k, enc), *([" "] * k)]
@@ -1202,9 +1305,14 @@ def gen_row(rng, w, enc, pool: AttrPool, tail=None, c0=False, ibm=False):
         for _ in range(rng.randint(0, 3)):
             if n > 1:
                 cuts.add(rng.randrange(1, n))
+    if ctrl_at is not None and rng.random() < 0.8:
+        cuts = {c for c in cuts if c <= ctrl_at}  # keep the control byte in the same (last) run as the blanks
     if c0 and n:
         i = rng.randrange(n)
-        units[i] = units[i] + rng.choice("\t\x01\x1b\x7f")
+        if utf:
+            units[i] = units[i] + rng.choice("\t\x01\x1b\x7f")  # zero columns for calc_width (known finding)
+        else:
+            units[i] = rng.choice(CTRL_NARROW)  # one column, must be painted as '?'
     segs = []
     start = 0
     for c in [*sorted(cuts), n]:
@@ -1214,7 +1322,7 @@ def gen_row(rng, w, enc, pool: AttrPool, tail=None, c0=False, ibm=False):
     if ibm:
         # some runs in the IBM-PC character set (cs "U", what urwid's Terminal widget emits): latin-1 encodable text only
         for sg in segs:
-            if rng.random() < 0.5 and all(ord(ch) < 0x100 and ch not in DEC for ch in sg[0]):
+            if rng.random() < 0.5 and all(0x20 <= ord(ch) < 0x100 and ch not in DEC for ch in sg[0]):
                 sg.append("U")
     return segs
 
@@ -1278,6 +1386,8 @@ def gen_string(rng, enc, maxlen=14):
             out.append(rng.choice(DEC))
         elif r < 0.92:
             out.append(rng.choice(WIDE))
+        elif r < 0.95 and enc_mode(enc) != "utf8":
+            out.append("\t")  # Text("name\tqty\t"): one column in a byte encoding, shown as '?'
         else:
             out.append(rng.choice(LATIN))
     return "".join(out)
@@ -1359,6 +1469,38 @@ def mutate_tree(rng, t, enc):
     return t
 
 
+def gen_release_case(rng, n_frames):
+    """MainLoop discipline, long: the harness drops every reference to a canvas right after draw_screen() and only then
+    builds the next one; a handful of distinct same-size frames in random order, so a draw that is skipped or stale shows"""
+    enc = rng.choice(["utf-8", "utf-8", "iso8859-1"])
+    colors = rng.choice([16, 256])
+    cfg = {"enc": enc, "colors": colors, "bib": False, "bce": rng.random() < 0.6, "pal_first": True, "release": True}
+    palette, names = gen_palette(rng, colors)
+    pool = AttrPool(rng, names)
+    w, h = rng.choice([2, 3, 5, 8, 13]), rng.choice([1, 2, 3, 4])
+    wrap = rng.choice([["text"], ["text"], ["composite"]])
+    pics = []
+    for _ in range(rng.randint(2, 4)):
+        fr = gen_text_frame(rng, w, h, enc, pool)
+        fr["wrap"] = wrap
+        pics.append(fr)
+    ops = []
+    last = None
+    for _ in range(n_frames):
+        r = rng.random()
+        if r < 0.04:
+            ops.append(["clear"])
+            continue
+        i = rng.randrange(len(pics))
+        if i == last and len(pics) > 1:
+            i = (i + 1) % len(pics)
+        last = i
+        if r < 0.15:
+            pics[i] = mutate_text_frame(rng, pics[i], enc, pool)
+        ops.append(["draw", pics[i]])
+    return {"cfg": cfg, "palette": palette, "ops": ops}
+
+
 def gen_partial_case(rng, cfg, palette, pool, enc):
     """partial-screen mode (start(alternate_buffer=False)): the display starts `base` rows down the normal screen; only the
     first h - base canvas rows may be non-blank (the application is given the whole terminal height by get_cols_rows)"""
@@ -1396,6 +1538,8 @@ def gen_case(rng):
     enc = rng.choice(["utf-8", "utf-8", "utf-8", "utf8", "iso8859-1", "iso8859-1", "ascii"])
     colors = rng.choice([1, 16, 16, 88, 256, 256, TRUE])
     cfg = {"enc": enc, "colors": colors, "bib": rng.random() < 0.5, "bce": rng.random() < 0.6, "pal_first": rng.random() < 0.5}
+    if rng.random() < 0.2:
+        cfg["release"] = True  # MainLoop discipline: no reference to a drawn canvas is kept by the caller
     palette, names = gen_palette(rng, colors)
     pool = AttrPool(rng, names)
     w, h = rng.choice(SIZES_W), rng.choice(SIZES_H)
@@ -1408,6 +1552,8 @@ def gen_case(rng):
         return gen_text_frame(rng, w, h, enc, pool, c0_p=c0_p, ibm=ibm)
 
     c0_p = 0.5 if rng.random() < 0.04 else 0.0
+    if enc_mode(enc) != "utf8" and rng.random() < 0.15:
+        c0_p = 0.3
     ibm = enc == "iso8859-1" and rng.random() < 0.12
     if rng.random() < 0.1:
         return gen_partial_case(rng, cfg, palette, pool, enc)
@@ -1461,6 +1607,16 @@ def shrink_raw(ctx, case, sig, budget=140):
         return tries <= budget and sig in _sigs_of(ctx, c)
 
     cur = json.loads(json.dumps(case))
+    # 0. shortest failing prefix (long release-discipline histories would make every later step expensive)
+    for k in (1, 2, 3, 4, 6, 9, 14, 20, 30, 45):
+        if k >= len(cur["ops"]):
+            break
+        c = dict(cur, ops=cur["ops"][:k])
+        if ok(c):
+            cur = c
+            break
+    if len(cur["ops"]) > 40:
+        return cur
     # 1. drop ops
     i = len(cur["ops"]) - 1
     while i >= 0 and tries < budget:
@@ -1634,6 +1790,11 @@ def directed_cases():
             out.append(one([[["ab", None], ["   ", "u"]], [["cd", None], ["   ", "so"]]], 5))
             out.append(one([[["ab", None], ["   ", "b"]], [["cd", None], ["   ", "nope"]]], 5))
             out.append(one([[["x", None]]], 1, [0, 0]))
+    # byte encoding: control bytes are one column and shown as '?'
+    cfg = {"enc": "iso8859-1", "colors": 16, "bib": False, "bce": True, "pal_first": True}
+    for txt in ("name\tqty\t   ", "ab\x0b    \r  ", "\x0c         "):
+        out.append({"cfg": cfg, "palette": [], "ops": [["draw", {"k": "text", "w": len(txt), "rows": [[[txt, None]], [["x" * len(txt), None]]], "cur": None, "wrap": ["text"]}]]})
+    out.append({"cfg": dict(cfg, alt=False, base=1), "palette": [], "ops": [["draw", {"k": "text", "w": 3, "rows": [[["   ", None]], [["\x0b  ", None]], [["   ", None]]], "cur": None, "wrap": ["text"]}]]})
     return out
 
 
@@ -1649,10 +1810,14 @@ def run(ctx):
             run_case(ctx, case, shrunk)
             run_html_case(ctx, case)
             ctx.count("directed_cases")
+    for _ in range(2):
+        case = gen_release_case(rng, ctx.pick(60, 200))
+        run_case(ctx, case, shrunk)
+        ctx.count("release_discipline_long_histories")
     k = 0
     while ctx.more(1.0):
         k += 1
-        case = gen_case(rng)
+        case = gen_release_case(rng, ctx.pick(40, 120)) if k % 40 == 0 else gen_case(rng)
         run_case(ctx, case, shrunk)
         if ctx.more(1.0):
             run_html_case(ctx, case)
